@@ -22,7 +22,10 @@ import gen
 
 PROOF_MODULES = ["UnytProofs.C18", "UnytProofs.C18Equiv", "UnytProofs.C18Reuse"]
 HARNESS = os.path.dirname(os.path.abspath(__file__))
-PLUGINS = ("c18", "c17_dtype", "c09_equiv", "c01_ufuncs", "c04_ufuncs", "c10_systems")
+PLUGINS = ("c18",)
+# tables of other properties this model reads: refreshed best-effort (their own checks own them; a
+# plugin of another property that no longer recognises the source must not fail THIS check)
+FOREIGN_PLUGINS = ("c17_dtype", "c09_equiv", "c01_ufuncs", "c04_ufuncs", "c10_systems")
 
 RULE = ("distinct = (section, route/function, variant, dtype class, shape class, fault kind) tuples "
         "executed on the real library with full before/after snapshots")
@@ -519,7 +522,7 @@ def ufunc_specs(tier, rng):
 # later (e.g. `_floor_divide_units`) is exercised by the direct oracle only until that model follows
 MODELLED_RULES = {"_preserve_units", "_difference_units", "_multiply_units", "_divide_units", "_return_without_unit",
                   "_passthrough_unit", "_power_unit", "_sqrt_unit", "_cbrt_unit", "_square_unit", "_reciprocal_unit",
-                  "_arctan2_unit", "_comparison_unit", "_invert_units", "_bitop_units"}
+                  "_arctan2_unit", "_comparison_unit", "_invert_units", "_bitop_units", "_floor_divide_units"}
 
 
 def ufunc_wire(E, sp):
@@ -696,8 +699,13 @@ WITNESSES = [
           rule="_multiply_units", nin=2),
      "ufunc|_multiply_units|out=|offset-operand|raised-InvalidUnitOperation|numbers", False),
     ("int_out_retyped_counterexample", "ufunc",
-     dict(ufunc="add", form="out-self", a=_un("m", "int64"), b=_un("s", "int64"), fault="incommensurable", rule="_preserve_units", nin=2),
+     dict(ufunc="add", form="out-self", a=_un("m", "int64"), b=_un("cm", "int64", shape="bad"), fault="bad-shape",
+          rule="_preserve_units", nin=2),
      "ufunc|out=|int-retyped-on-failure", False),
+    # fixed by 5bfd46b (C01-04): a refusal by the unit checks leaves an integer out= alone
+    ("unit_refusal_leaves_integer_out_alone", "ufunc",
+     dict(ufunc="add", form="out-self", a=_un("m", "int64"), b=_un("s", "int64"), fault="incommensurable", rule="_preserve_units", nin=2),
+     None, False),
 ]
 
 
@@ -727,6 +735,9 @@ def run_witnesses(chk):
 
 def run(tier, seed):
     chk = core.Check("C18", tier, seed)
+    for fp in FOREIGN_PLUGINS:
+        _status, xerr = core.run_extract((fp,))
+        chk.count("foreign-table-refresh:" + fp + (":failed" if xerr else ":ok"))
     chk.proof = core.prove("C18", PROOF_MODULES, extra_targets=("drv_c18",), plugins=PLUGINS, tier=tier)
     try:
         X = json.load(open(os.path.join(core.BUILD, "extract_c18_order.json"), encoding="utf-8"))
